@@ -83,7 +83,7 @@ def run_case(ctx, g, rng):
         probe.note_key(f"curie-small-world:chunk{g % 40}", True)
     api, S = ctx.api, probe.S
     d = rng.choice(gen.DELIMS)
-    recs = gen.records(rng, d, 1, 5)
+    recs = gen.records(rng, d, 0, 5)
     if g % 2 == 0:
         recs = make_prefix_free(recs)
     if not recs:
